@@ -16,6 +16,7 @@ import Hdl21Model.ExportOrder
 import Hdl21Model.Lemmas.Resolve
 import Hdl21Model.Lemmas.Export
 import Hdl21Model.Lemmas.ExportWF
+import Hdl21Model.Lemmas.ConnTypes
 namespace Hdl21.Props.C06
 open Hdl21 Hdl21.ExportOrder
 
@@ -198,6 +199,55 @@ theorem export_module_wf (ctx : PRef → Option (List (String × Nat))) (h : HMo
     obtain ⟨ports, hc, hnd, hall, hcov⟩ := e3 pi hpi
     exact inst_no_problems pkg earlier _ pi ports (by rw [hctx]; exact hc) hnd hall hcov
   simp only [h1, h2, h3, h4, h5, h6, List.map_nil, List.append_nil]
+
+
+theorem lookup_of_mem (ports : List (String × Nat)) (hnd : (ports.map (·.1)).Nodup) :
+    ∀ (p : String) (w : Nat), (p, w) ∈ ports → Pkg.lookup p ports = some w := by
+  induction ports with
+  | nil => intro p w h; cases h
+  | cons a rest ih =>
+    intro p w h
+    simp only [List.map_cons, List.nodup_cons] at hnd
+    obtain ⟨a1, a2⟩ := a
+    unfold Pkg.lookup
+    rcases List.mem_cons.mp h with e | e
+    · injection e with e1 e2; subst e1; subst e2; simp
+    · have hne : a1 ≠ p := fun e' => hnd.1 (e' ▸ List.mem_map.mpr ⟨(p, w), e, rfl⟩)
+      rw [if_neg hne]
+      exact ih hnd.2 p w e
+
+/-- **What the checking passes establish is what the exporter needs**: an instance whose connections pass `ConnTypes`
+    (every port connected, width equal, nothing else — `conntypes_passes_iff`), are over the module's own signals (`Orphanage`)
+    and are resolved to exportable form (`SliceResolver`) satisfies the instance part of `EWF`. -/
+theorem checked_instance_is_instOK (ctx : PRef → Option (List (String × Nat))) (ws : List (String × Nat)) (i : HInst)
+    (ports : List (String × Nat)) (hc : ctx i.ref = some ports)
+    (hio : (ports.map (·.1)).Nodup) (hnd : (i.conns.map (·.1)).Nodup)
+    (hpass : ConnTypes.passes ports i.conns = true)
+    (hown : ∀ pc ∈ i.conns, sigsOK ws pc.2 = true ∧ ∃ t, exportTarget pc.2 = .ok t) :
+    ExportWF.instOK ctx ws i = true := by
+  obtain ⟨hall, hex⟩ := (ConnTypes.passes_iff ports i.conns hio hnd).mp hpass
+  unfold ExportWF.instOK
+  rw [hc]
+  simp only [Bool.and_eq_true, decide_eq_true_eq, List.all_eq_true]
+  refine ⟨⟨hnd, ?_⟩, ?_⟩
+  · intro pc hpc
+    have hk := hex pc hpc
+    obtain ⟨pw, hpw, hpn⟩ := List.mem_map.mp hk
+    obtain ⟨c, hcm, hw⟩ := hall pw hpw
+    have hceq : c = pc.2 := by
+      have h1 : (pw.1, pc.2) ∈ i.conns := by rw [hpn]; exact hpc
+      exact ConnTypes.unique_conn i.conns pw.1 c pc.2 hnd hcm h1 |>.symm
+    have hl : Pkg.lookup pc.1 ports = some pw.2 := by
+      rw [← hpn]; exact lookup_of_mem ports hio pw.1 pw.2 hpw
+    rw [hl]
+    obtain ⟨hs, t, ht⟩ := hown pc hpc
+    unfold connOK
+    rw [hs, ht, ← hceq, hw]
+    simp
+  · intro pw hpw
+    obtain ⟨c, hcm, _⟩ := hall pw hpw
+    simp only [List.contains_eq_mem, decide_eq_true_eq]
+    exact List.mem_map.mpr ⟨(pw.1, c), hcm, rfl⟩
 
 
 /-- non-vacuity: a module with a port, an internal bus and a resistor between a bit of the bus and the port -/
